@@ -396,6 +396,12 @@ impl<'a> ParseScd<'a> for WriteMemStacked {
     fn parse(buf: &'a [u8], ccd: &AckCcd) -> Result<Self> {
         let mut cursor = Cursor::new(buf);
         let mut to_read = ccd.scd_len as usize;
+        // Each entry is composed of [reserved(2bytes), length written(2bytes)].
+        if to_read % 4 != 0 {
+            return Err(Error::InvalidPacket(
+                "SCD length of WriteMemStackedAck must be a multiple of four".into(),
+            ));
+        }
         let mut lengths = Vec::with_capacity(to_read / 4);
 
         while to_read > 0 {
